@@ -35,6 +35,8 @@ func main() {
 		cmdCheck(os.Args[2:])
 	case "replay":
 		cmdReplay(os.Args[2:])
+	case "wire":
+		cmdWire(os.Args[2:])
 	default:
 		usage()
 	}
@@ -226,3 +228,60 @@ func cmdReplay(args []string) {
 	os.Exit(0)
 }
 
+
+func cmdWire(args []string) {
+	fs := flag.NewFlagSet("wire", flag.ExitOnError)
+	repo := fs.String("repo", "/repo", "repository")
+	pkg := fs.String("pkg", "", "package suffix filter")
+	verbose := fs.Bool("v", false, "verbose")
+	keep := fs.Bool("keep", false, "keep smt files")
+	fs.Parse(args)
+	p := loadAll(*repo)
+	cfg := &SolverCfg{WorkDir: verifRoot() + "/.work/dbg", TimeoutMS: 10000, Jobs: 16, Keep: *keep}
+	total, good := 0, 0
+	for _, ct := range p.codecTypes(*pkg) {
+		match := fs.NArg() == 0
+		for _, a := range fs.Args() {
+			if strings.HasPrefix(a, "=") {
+				if strings.HasSuffix(typeKey(ct.Named), "."+a[1:]) {
+					match = true
+				}
+			} else if strings.Contains(typeKey(ct.Named), a) {
+				match = true
+			}
+		}
+		if !match || wireSkip[typeKey(ct.Named)] {
+			continue
+		}
+		rep := p.WireCheck(ct)
+		if os.Getenv("GOVC_NOSOLVE") != "" {
+			cnt := map[string]int{}
+			for _, o := range rep.Obls {
+				parts := strings.Split(o.Name, "/")
+				k := strings.Join(parts[:min(len(parts), 4)], "/")
+				cnt[k]++
+			}
+			fmt.Println(rep.Name, len(rep.Obls), cnt)
+			continue
+		}
+		SolveAll(rep.Obls, cfg)
+		nd := 0
+		for _, o := range rep.Obls {
+			if o.Status == "discharged" {
+				nd++
+			}
+		}
+		total += len(rep.Obls)
+		good += nd
+		fmt.Printf("== %s: %d/%d %s\n", rep.Name, nd, len(rep.Obls), rep.Err)
+		for _, o := range rep.OOS {
+			fmt.Println("   out-of-subset:", o)
+		}
+		for _, o := range rep.Obls {
+			if o.Status != "discharged" || *verbose {
+				fmt.Printf("   %-3s %-60s %-10s %s %dms\n", map[bool]string{true: "ok", false: "!!"}[o.Status == "discharged"], o.Name, o.Status, o.Solver, o.TimeMS)
+			}
+		}
+	}
+	fmt.Printf("total %d/%d\n", good, total)
+}
